@@ -282,7 +282,9 @@ GRAMMAR(c24_g_end,
 // ---- 63-bit limit: 16/17 hex digits with the first and the last unconstrained (0fff…f, 7fff…ff, 8000…, one digit too
 // many …); 15th and 16th digit unconstrained
 GRAMMAR(c24_g_big,
-        T("\x01" "fffffffffffffff\x01\r\nX"), T("7fffffffffffff\x01\x01\r\nX"))
+        T("\x01" "fffffffffffffff\x01\r\nX"), T("7fffffffffffff\x01\x01\r\nX"),
+        // 17 digits whose 64-bit accumulation wraps around to a small value (17000000000000000 ...): still "does not fit in 63 bits"
+        T("\x01\x01" "00000000000000\x01\r\nX"))
 #ifdef VF_THOROUGH
 // two bytes of a chunk-size line at once: first line, second line
 GRAMMAR_M(c24_g_size2, cmDefault, T("\x02\x02\r\nab\r\n0\r\n\r\n"))
